@@ -281,6 +281,49 @@ def run(loader, R, tier):
                         "and its negation could both give a definite "
                         "answer" % (fname, vname))
 
+    # ---------------------------------------------------------------- R34.4
+    # strict duality of helpers: a sign visitor that decides its predicate
+    # for a sum/product from the signs of the parts may consult, within the
+    # sign family, only its *strict* dual (Positive <-> Negative,
+    # NonNegative <-> NonPositive).  With a non-strict helper the boundary
+    # case (a part equal to zero) is counted on the wrong side:
+    # is_positive(-x - y) under x <= 0, y <= 0 would be true.
+    R.rule("R34.4", "sign visitors consult only their strict dual")
+    DUAL = {"PositiveVisitor": "NegativeVisitor",
+            "NegativeVisitor": "PositiveVisitor",
+            "NonNegativeVisitor": "NonPositiveVisitor",
+            "NonPositiveVisitor": "NonNegativeVisitor"}
+    nhelp = 0
+    for u, f in sorted(prog.functions.items(),
+                       key=lambda kv: kv[1]["qn"]):
+        cls = short(f.get("cls") or "")
+        if cls not in DUAL or not f.get("body") or f.get("dependent"):
+            continue
+        for n in walk(f["body"]):
+            used = None
+            if n.get("k") == "decl":
+                for v in n.get("v", ()):
+                    t = short(strip_type(v.get("t", "")))
+                    if t in DUAL:
+                        used = (t, n.get("l"))
+            elif n.get("k") == "ctor" and short(strip_type(
+                    n.get("t", ""))) in DUAL and n.get("tmp"):
+                used = (short(strip_type(n["t"])), n.get("l"))
+            if not used:
+                continue
+            nhelp += 1
+            key = "%s::%s:%s" % (cls, f["n"], used[0])
+            R.instance("R34.4", key, sample={"visitor": cls,
+                                             "helper": used[0]})
+            if used[0] not in (DUAL[cls], cls):
+                R.violation(
+                    "R34.4", key, prog.loc(f, used[1]),
+                    "%s::%s decides from the signs of the parts with the "
+                    "helper %s; only its strict dual %s keeps the boundary "
+                    "case (a part equal to zero) on the right side" % (
+                        cls, f["n"], used[0], DUAL[cls]))
+    R.floor("sign-family helpers inside sign visitors", nhelp, 1)
+
 
 MANIFEST = dict(
     technique="finite-domain abstract interpretation of the number handlers "
